@@ -159,7 +159,7 @@ func (wa *writeAnalyzer) ofFunction(fn *ssa.Function) *WriteSet {
 		w.setAll("recursion through " + fn.String())
 		return w
 	}
-	if c := wa.eng.contractFor(fn); c != nil && c.Modifies != nil {
+	if c := wa.eng.contractFor(fn); c != nil && (c.Modifies != nil || len(c.GhostSets) > 0) && (c.HasMod || c.Trusted || fn.Blocks == nil) {
 		ms := wa.eng.modifiesKeys(c, fn)
 		wa.memo[fn] = ms
 		return ms
